@@ -274,6 +274,11 @@ def idle_cases(quick=True):
                   "expect_answers": 2,
                   "script": [["advance", 6], ["send", "s1"], ["advance", 6], ["probe", "idle"], ["send", "s2"], ["advance", 3],
                              ["probe", "end"]]})
+    # the same histories with a send that behaves like a database write: the control loop can pick the tick up before
+    # the sender's send_event returns (the inner runtime's put_nowait never lets that happen)
+    for c in list(cases):
+        if c["create_row"] and (c["label"] in ("two_cycles", "event_then_idle") or c["gap"] > c["idle_timeout"] * 10):
+            cases.append(dict(c, label=c["label"] + "/send_yields", send_yields=3))
     return cases
 
 
